@@ -195,6 +195,14 @@ class Ctx:
         if f.key not in {x.key for x in self.findings}:
             self.findings.append(f)
 
+    @property
+    def raw(self):
+        """(program, resolver) as written - before helper expansion and canonical forms (for rules about call sites)"""
+        if getattr(self, "_raw", None) is None:
+            rp = Program(self.repo, extra=("Scripts", "Pipeline", "per_dataset_benchmark.py"))
+            self._raw = (rp, Resolver(rp))
+        return self._raw
+
     def require(self, cond, msg: str) -> None:
         if not cond:
             raise AnalysisError(msg)
